@@ -414,7 +414,7 @@ static int
 maildir_stdin(struct maildir *md, const struct environment *env)
 {
 	char buf[BUFSIZ], name[NAME_MAX + 1];
-	const char *path;
+	const char *p, *path;
 	ssize_t nr, nw;
 	int error = 0;
 	int fd;
@@ -457,11 +457,13 @@ maildir_stdin(struct maildir *md, const struct environment *env)
 		if (nr == 0)
 			break;
 
-		nw = write(fd, buf, (size_t)nr);
-		if (nw == -1) {
-			warn("write: %s/%s", path, name);
-			error = 1;
-			goto out;
+		for (p = buf; nr > 0; p += nw, nr -= nw) {
+			nw = write(fd, p, (size_t)nr);
+			if (nw == -1) {
+				warn("write: %s/%s", path, name);
+				error = 1;
+				goto out;
+			}
 		}
 	}
 
